@@ -139,6 +139,9 @@ def gen_cases(rng: Rng, tier):
             if fam == "bsplines":
                 p = rng.randint(1, 4)
                 c.update(p=p, n=max(nf, p + 1))
+                if rng.random() < 0.5:  # non-default options must be forwarded by Basis(...)
+                    xs = _Fv(c["x"])
+                    c.update(dmin=rs(xs[0] - rng.choice([0, Fraction(1, 2), 1])), dmax=rs(xs[-1] + rng.choice([0, Fraction(1, 4), 2])), default_dom=False)
             yield c
         elif kind == "basis2":
             f1 = FAMILIES[(k // len(kinds)) % 4]
@@ -158,7 +161,7 @@ def gen_cases(rng: Rng, tier):
             f1, f2 = rng.choice(FAMILIES), rng.choice(FAMILIES)
             p = rng.randint(1, 3)
             n1 = n2 = rng.randint(p + 1, 7)  # a multivariate object needs the same number of functions per component
-            yield dict(kind=kind, fam=[f1, f2], n=[n1, n2], p=p, add=rng.random() < 0.6,
+            yield dict(kind=kind, fam=[f1, f2], n=[n1, n2], p=p, add=rng.random() < 0.6, norm=rng.random() < 0.5,
                        x1=[rs(v) for v in _std_grid(rng, f1, rng.randint(4, 9))], x2=[rs(v) for v in _std_grid(rng, f2, rng.randint(4, 9))])
         elif kind == "reject":
             which = rng.choice(["name", "nseg0", "flat"])
@@ -242,15 +245,15 @@ def run_impl(case):
             arg = DenseArgvals({"input_dim_0": x})
             b = Basis(name=fam, n_functions=case["n"], argvals=arg, is_normalized=case["norm"], add_intercept=case["add"], **kw)
             val = b.values
-            raw = _sim(fam, x, case["n"], False, case["add"], **({"degree": kw["degree"]} if "degree" in kw else {}))
-            out["sim"] = _sim(fam, x, case["n"], case["norm"], case["add"], **({"degree": kw["degree"]} if "degree" in kw else {})).tolist()
+            raw = _sim(fam, x, case["n"], False, case["add"], **kw)
+            out["sim"] = _sim(fam, x, case["n"], case["norm"], case["add"], **kw).tolist()
             out["n_obs"] = int(b.n_obs)
         out["shape"] = list(np.shape(val))
         out["v"] = np.asarray(val).tolist()
         out["raw"] = raw.tolist()
         # squared norms of the full family (before the intercept is dropped), as the code computes them
         nfull = case["n"] if case["add"] else case["n"] + 1
-        full = _sim(fam, x, nfull, False, True, **(kw if kind == "sim" else ({"degree": kw["degree"]} if "degree" in kw else {})))
+        full = _sim(fam, x, nfull, False, True, **kw)
         out["q"] = simpson(full * full, x=x).tolist()
         if case["norm"]:
             out["unit"] = simpson(np.asarray(val) * np.asarray(val), x=x).tolist()
@@ -281,10 +284,11 @@ def run_impl(case):
             out["m2"] = _sim(f2, x2, n2, case["norm"], case["add"], **kw).tolist()
         else:
             args = [DenseArgvals({"input_dim_0": x1}), DenseArgvals({"input_dim_0": x2})]
-            mb = MultivariateBasis(name=[f1, f2], n_functions=[n1, n2], argvals=args, add_intercept=case["add"], **kw)
+            nrm = bool(case.get("norm", False))
+            mb = MultivariateBasis(name=[f1, f2], n_functions=[n1, n2], argvals=args, is_normalized=nrm, add_intercept=case["add"], **kw)
             out["n_functional"] = int(mb.n_functional)
             out["comp"] = [np.asarray(c.values).tolist() for c in mb.data]
-            out["ref"] = [_sim(f1, x1, n1, False, case["add"], **kw).tolist(), _sim(f2, x2, n2, False, case["add"], **kw).tolist()]
+            out["ref"] = [_sim(f1, x1, n1, nrm, case["add"], **kw).tolist(), _sim(f2, x2, n2, nrm, case["add"], **kw).tolist()]
     elif kind == "reject":
         x = _arr(case["x"])
         try:
@@ -576,7 +580,7 @@ def oracle(case, impl):
         if impl["n_functional"] != 2:
             bad("shape", "MultivariateBasis does not have two components", "MultivariateBasis")
         for c, r in zip(impl["comp"], impl["ref"]):
-            if not np.array_equal(np.array(c), np.array(r)):
+            if not np.array_equal(np.array(c), np.array(r), equal_nan=True):
                 bad("basis_values", "MultivariateBasis component differs from the marginal basis", "MultivariateBasis")
                 break
     elif kind == "reject":
